@@ -2,7 +2,7 @@
    user and located from the working directory) takes, on every file system, the decision of Model/ArchiveOut.v (C11:
    WHICH of the five outcomes), which is the one translated from the sources (Proofs/GenTieArchive.v). *)
 From Coq Require Import List NArith Bool.
-From Conductor Require Import Lib.Str Lib.Path Gen.Generated Model.Cwd Model.ArchiveOut Proofs.GenTieArchive.
+From Conductor Require Import Lib.Str Lib.Path Gen.Generated Model.Cwd Model.ArchiveOut Proofs.GenTieArchiveOut.
 Import ListNotations.
 Open Scope N_scope.
 
